@@ -49,6 +49,11 @@ type deferRec struct {
 	args []Value
 }
 
+type pendingFrame struct {
+	from, to int
+	alloc    Term
+}
+
 type loopEntry struct {
 	measure Term
 	hasMeas bool
@@ -92,6 +97,8 @@ type State struct {
 	pc      []Term
 	heaps   map[string]Term // current version of each heap
 	hsorts  map[string]string
+	hver    map[string]int
+	pending map[string][]pendingFrame
 	epoch   int
 	globals map[string]Term
 	ghosts  map[string]Term
@@ -116,6 +123,14 @@ func (s *State) clone() *State {
 		t.heaps[k] = v
 	}
 	t.hsorts = s.hsorts // shared, append-only
+	t.hver = make(map[string]int, len(s.hver))
+	for k, v := range s.hver {
+		t.hver[k] = v
+	}
+	t.pending = make(map[string][]pendingFrame, len(s.pending))
+	for k, v := range s.pending {
+		t.pending[k] = append([]pendingFrame(nil), v...)
+	}
 	t.globals = make(map[string]Term, len(s.globals))
 	for k, v := range s.globals {
 		t.globals[k] = v
@@ -136,6 +151,12 @@ func (s *State) snapshot() *State {
 	for k, v := range s.heaps {
 		t.heaps[k] = v
 	}
+	t.hver = make(map[string]int, len(s.hver))
+	for k, v := range s.hver {
+		t.hver[k] = v
+	}
+	t.pending = map[string][]pendingFrame{}
+	t.pc = s.pc[:len(s.pc):len(s.pc)]
 	t.globals = make(map[string]Term, len(s.globals))
 	for k, v := range s.globals {
 		t.globals[k] = v
@@ -182,15 +203,27 @@ type Obligation struct {
 }
 
 // heap returns the current version of heap `name` (declaring it on first use).
+func (ex *Exec) heapConst(name, sort string, epoch, ver int) Term {
+	cn := fmt.Sprintf("%s@%d.%d", smtName("H_", name), epoch, ver)
+	ex.d.declConst(cn, sort)
+	return mk(sort, cn)
+}
+
 func (ex *Exec) heap(st *State, name, sort string) Term {
 	if t, ok := st.heaps[name]; ok {
 		return t
 	}
 	st.hsorts[name] = sort
-	cn := fmt.Sprintf("%s@%d", smtName("H_", name), st.epoch)
-	ex.d.declConst(cn, sort)
-	t := mk(sort, cn)
+	t := ex.heapConst(name, sort, st.epoch, st.hver[name])
 	st.heaps[name] = t
+	// frame axioms recorded while the heap was still untouched on this path
+	for _, pf := range st.pending[name] {
+		o, n := ex.heapConst(name, sort, st.epoch, pf.from), ex.heapConst(name, sort, st.epoch, pf.to)
+		if ks, _, ok := arrayParts(sort); ok && ks == SInt {
+			st.assume(mk(SBool, fmt.Sprintf("(forall ((r Int)) (! (=> (< r %s) (= (select %s r) (select %s r))) :pattern ((select %s r))))", pf.alloc.S, n.S, o.S, n.S)))
+		}
+	}
+	delete(st.pending, name)
 	return t
 }
 
@@ -204,11 +237,17 @@ func (ex *Exec) setHeap(st *State, name string, t Term) {
 func (ex *Exec) havocHeap(st *State, name string, allocOnly bool) {
 	old, ok := st.heaps[name]
 	srt := st.hsorts[name]
-	if !ok && srt == "" {
-		return // never touched on this path: any later first use gets a fresh constant anyway
-	}
 	if !ok {
-		old = ex.heap(st, name, srt)
+		// untouched on this path: bump the version so that a later first use (and old())
+		// see different constants; remember the allocation-only frame for that moment
+		from := st.hver[name]
+		st.hver[name] = from + 1
+		if allocOnly {
+			st.pending[name] = append(st.pending[name], pendingFrame{from, from + 1, st.alloc})
+		} else {
+			delete(st.pending, name)
+		}
+		return
 	}
 	cn := freshName("H_" + name)
 	ex.d.declConst(cn, srt)
@@ -227,6 +266,7 @@ func (ex *Exec) havocHeap(st *State, name string, allocOnly bool) {
 // havocAll forgets every heap and global (an unknown callee may have written anything).
 func (ex *Exec) havocAll(st *State) {
 	st.epoch++
+	st.pending = map[string][]pendingFrame{}
 	names := make([]string, 0, len(st.heaps))
 	for n := range st.heaps {
 		names = append(names, n)
@@ -347,7 +387,7 @@ func (ex *Exec) zero(t types.Type) Term {
 	case "Fn":
 		return mk("Fn", "fn_nil")
 	case "RV":
-		return mk("RV", "(mk_rv false nil_val)")
+		return mk("RV", "(mk_rv false nil_val false)")
 	case SUnit:
 		return mk(SUnit, "unit")
 	}
